@@ -306,6 +306,8 @@ def run_c18(tier, replay=None):
                 # attribute sets vary: optional attributes of a space are left out in every combination, so that the documented
                 # legacy defaults (operating conditions named like the space type, thermal envelope by conditioning) are exercised
                 for fl in p["floors"]:
+                    if rng.random() < 0.6:
+                        fl["floor_height"] = rng.choice([0, fl.get("height", 3), fl.get("height", 3) + 0.5])
                     for sp in fl["spaces"]:
                         sp["spacetype"] = rng.choice(["Residencial", "Terciario_8h", "NIVEL_ESTANQUEIDAD_3"])
                         for key, val in (("spacecond", rng.choice(["Residencial", "NIVEL_ESTANQUEIDAD_1"])), ("syscond", rng.choice(["Residencial", "Terciario_12h"]))):
